@@ -2,7 +2,9 @@ package props
 
 import (
 	"fmt"
+	"sort"
 	"strings"
+	"sync"
 
 	"github.com/ProtonMail/gluon/imap"
 	"github.com/ProtonMail/gluon/limits"
@@ -19,7 +21,7 @@ type C17 struct{}
 
 func (C17) ID() string { return "C17" }
 
-var c17Kinds = []string{"append", "copy", "move", "create", "rename", "conn.batch", "conn.mbox", "conn.boxes", "expunge", "delete"}
+var c17Kinds = []string{"append", "copy", "move", "create", "rename", "conn.batch", "conn.mbox", "conn.boxes", "expunge", "delete", "papp"}
 
 func (C17) Generate(r *core.Rand, tier string, idx int) *core.Scenario {
 	sc := &core.Scenario{Property: "C17", Cfg: map[string]int{}}
@@ -30,8 +32,8 @@ func (C17) Generate(r *core.Rand, tier string, idx int) *core.Scenario {
 	if r.P(1, 2) {
 		sc.Cfg["deepcreate"] = 1 // CREATE / RENAME that have to create parent mailboxes
 	}
-	//                 app cop mov cre ren cba cmb cbx exp del
-	weights := []int{14, 8, 5, 6, 2, 6, 3, 3, 3, 1}
+	//                 app cop mov cre ren cba cmb cbx exp del papp
+	weights := []int{14, 8, 5, 6, 2, 6, 3, 3, 3, 1, 4}
 	n := r.Range(25, 60)
 	for i := 0; i < n; i++ {
 		a := core.Action{K: c17Kinds[r.Weighted(weights)]}
@@ -46,10 +48,35 @@ func (C17) Generate(r *core.Rand, tier string, idx int) *core.Scenario {
 func (C17) Execute(sc *core.Scenario, keepLog bool) *core.Result {
 	maxBoxes, maxMsgs, maxUID := max(3, sc.C("maxboxes")), max(1, sc.C("maxmsgs")), max(2, sc.C("maxuid"))
 	lim := limits.NewIMAPLimits(uint32(maxBoxes), uint32(maxMsgs), imap.UID(maxUID), imap.UID(0xFFFFFFF0))
-	cfg := world.Config{Users: []world.UserCfg{{Names: []string{"user"}, Password: "pass"}}, Limits: &lim}
+	cfg := world.Config{Users: []world.UserCfg{{Names: []string{"user"}, Password: "pass"}}, Limits: &lim, DBFaults: true}
 	return RunInBubble("C17", sc, keepLog, cfg, func(e *Env) {
 		u := e.W.Users[0]
 		u.Conn.MoveRemovesSource = sc.C("labels") == 0
+		// The simulator owns the moment a write transaction starts: while the gate is
+		// closed every db Write parks at its entry (a channel receive: quiescence sees it),
+		// and the parked writers are let through one at a time in an order the scenario
+		// chooses.  That decides the interleaving of concurrent commands at the seam where
+		// it matters (what a command read before it writes).
+		var (
+			gateMu   sync.Mutex
+			gateShut bool
+			gateWait []chan struct{}
+		)
+		e.W.DB.Hook = func(point string) error {
+			if point != "db.write.enter" {
+				return nil
+			}
+			gateMu.Lock()
+			if !gateShut {
+				gateMu.Unlock()
+				return nil
+			}
+			ch := make(chan struct{})
+			gateWait = append(gateWait, ch)
+			gateMu.Unlock()
+			<-ch
+			return nil
+		}
 		m := NewMail(e, 1, 2, true) // INBOX + box1 (+ recovery = 3 mailboxes)
 		if e.Failed() {
 			return
@@ -162,6 +189,116 @@ func (C17) Execute(sc *core.Scenario, keepLog bool) *core.Result {
 						e.Fail("fits-refused", "APPEND to %q (%d messages, next UID %d; limits %d messages, UID %d) answered %s %s%s", box.Name, len(box.Members), box.UIDNext, maxMsgs, maxUID, r.Status, r.Text, exact(box, 1))
 					}
 					// a refused APPEND goes to the recovery mailbox (C20): not judged here
+				}
+			case "papp":
+				// several sessions APPEND to one mailbox at the same time: the literals are
+				// handed over together, the commands run concurrently (their interleaving is
+				// the Go scheduler's).  However they interleave, the limits hold, and as many
+				// of them are accepted as there is room for.
+				k := 2 + abs(a.Arg(1))%3
+				type pa struct {
+					s   *world.Sess
+					tag string
+					g   *gen.Message
+					st  string
+					uid uint32
+				}
+				var ps []*pa
+				for j := 0; j < k; j++ {
+					ps2, err := e.W.Connect()
+					if err != nil {
+						e.Infra = err
+						return
+					}
+					if !ps2.Cmd("LOGIN user pass").OK() {
+						e.Fail("invariant", "LOGIN failed")
+						return
+					}
+					ps = append(ps, &pa{s: ps2, g: e.NewMessage(a.Arg(2)+j, gen.Opts{})})
+				}
+				for _, p := range ps {
+					p.tag = p.s.C.NextTag()
+					e.W.Sim.SetLabel(p.s.Label)
+					e.W.Tracef("C %s: %s APPEND %s {%d}", p.s.Label, p.tag, Quote(box.Name), len(p.g.Bytes))
+					p.s.C.Conn.ClientSend([]byte(fmt.Sprintf("%s APPEND %s {%d}\r\n", p.tag, Quote(box.Name), len(p.g.Bytes))))
+				}
+				e.W.Quiesce()
+				for _, p := range ps {
+					lines, _ := p.s.Poll()
+					cont := false
+					for _, l := range lines {
+						if l.Tag == "+" {
+							cont = true
+						}
+					}
+					if !cont {
+						e.Fail("invariant", "APPEND to %q on %s: no continuation request", box.Name, p.s.Label)
+						return
+					}
+				}
+				gateMu.Lock()
+				gateShut = true
+				gateMu.Unlock()
+				for _, p := range ps {
+					e.W.Sim.SetLabel(p.s.Label)
+					p.s.C.Conn.ClientSend(append(append([]byte(nil), p.g.Bytes...), '\r', '\n'))
+				}
+				e.W.Quiesce()
+				// every command has done what it does before its first write; now the writes
+				// happen one after the other, in the order the scenario picks
+				gateMu.Lock()
+				gateShut = false
+				waiting := gateWait
+				gateWait = nil
+				gateMu.Unlock()
+				e.St.Probes["writers_parked_at_gate"] += len(waiting)
+				for n := abs(a.Arg(3)); len(waiting) > 0; n /= 7 {
+					j := n % len(waiting)
+					close(waiting[j])
+					waiting = append(waiting[:j], waiting[j+1:]...)
+					e.W.Quiesce()
+				}
+				room := min(maxMsgs-len(box.Members), maxUID-(int(box.UIDNext)-1))
+				roomLow := min(maxMsgs-len(box.Members), maxUID-1-(int(box.UIDNext)-1)) // finding F19: the last UID is not handed out
+				var acc []*pa
+				for _, p := range ps {
+					lines, _ := p.s.Poll()
+					for _, l := range lines {
+						if l.Tag == p.tag {
+							p.st = l.Status
+							fmt.Sscanf(l.Code, "APPENDUID %d %d", new(uint32), &p.uid)
+						}
+					}
+					e.Tr.Event("papp", p.s.Label, box.Name, p.st)
+					switch p.st {
+					case "OK":
+						acc = append(acc, p)
+					case "":
+						e.Fail("invariant", "concurrent APPEND to %q on %s got no completion", box.Name, p.s.Label)
+						return
+					default:
+						refusedN++
+					}
+					p.s.Cmd("LOGOUT")
+					p.s.C.Dead = true
+				}
+				e.St.Probes["parallel_appends"]++
+				if len(acc) > max(room, 0) {
+					e.St.Probes["parallel_appends_over_limit"]++
+					e.Fail("limit-concurrent", "%d sessions APPENDed to %q (%d messages, next UID %d; limits %d messages, UID %d) at the same time and %d were accepted: room for %d", k, box.Name, len(box.Members), box.UIDNext, maxMsgs, maxUID, len(acc), max(room, 0))
+					return
+				}
+				if len(acc) < min(k, max(roomLow, 0)) {
+					e.Fail("fits-refused", "%d sessions APPENDed to %q (%d messages, next UID %d; limits %d messages, UID %d) at the same time and only %d were accepted: room for %d", k, box.Name, len(box.Members), box.UIDNext, maxMsgs, maxUID, len(acc), roomLow)
+					return
+				}
+				if room < k {
+					e.St.Probes["parallel_appends_at_limit"]++
+				}
+				sort.Slice(acc, func(i, j int) bool { return acc[i].uid < acc[j].uid })
+				for _, p := range acc {
+					o, _ := model.NewObj(p.g.Marker, p.g.Bytes, nil)
+					box.Add(o, false)
 				}
 			case "copy", "move":
 				if len(box.Members) == 0 {
